@@ -219,6 +219,8 @@ def check_prepare_paths(rep, ex, paths):
                 if ck.entails(pc, z3.Not(cred_some)) and shown_c != "None()":
                     bad("hook-identity-anon", "anonymous request shown to the hook with credentials %s" % shown_c, p)
             else:
+                if ck.sat(*(pc + [ex.is_variant(Term("ccx.access"), "Some", ["Some", "None"])])):
+                    bad("hook-not-consulted", "an access hook is configured but the operation runs without consulting it: %s" % names, p)
                 # default rule: anonymous refused
                 if not ck.entails(pc, cred_some):
                     bad("default-check-anon", "operation runs for an anonymous request without an access hook", p)
@@ -369,7 +371,18 @@ def check_check_paths(rep, ex, paths):
 def run(rep, tier):
     rep.engines["z3"] = z3.get_version_string()
     prog = load_program()
-    # ---- (A) ----------------------------------------------------------------------------------------
+    for part in (part_A, part_B, part_C, part_D):
+        try:
+            part(rep, prog)
+        except (rsx.Unsupported, rsx.PathBudget) as u:
+            rep.fail_inconclusive("%s: %s" % (part.__name__, u))
+    for d in prof.CATALOGUE_DOC:
+        rep.assume("catalogue: " + d)
+    rep.out("behaviour of user-supplied hook implementations; whether the signature algorithms themselves are right (C05/C06/C10/C11)")
+    rep.bound("no bound on requests or configurations: every Option/Result/flag is symbolic")
+
+
+def part_A(rep, prog):
     t0 = time.time()
     fn, problems, n_paths, n_guarded, q, st, sample, n_jobs = parallel_A(prog)
     rep.encoded("crates/s3s/src/ops/mod.rs", "call, prepare (all paths; helper extractors summarised)", "%d-" % fn["line"])
@@ -383,7 +396,9 @@ def run(rep, tier):
     report(rep, "A", "ops::call/prepare: no operation or custom route without Ok check() and approving hook, identity = verified signer, denials returned",
            problems, time.time() - t0)
     rep.sample({"paths": n_paths, "example_trace": sample})
-    # ---- (B) ----------------------------------------------------------------------------------------
+
+
+def part_B(rep, prog):
     t0 = time.time()
     global _PROG
     _PROG = prog
@@ -414,12 +429,17 @@ def run(rep, tier):
     rep.bound("SignatureContext::check: all %d feasible paths (%d authenticate, %d anonymous), %d subtrees in parallel" % (n_paths2, n_some, n_none, n_sub))
     report(rep, "B", "check(): identity only behind a matching signature under the provider's secret; no provider => signed requests refused; anonymous only without any signature",
            problems2, time.time() - t0)
-    # ---- (C) ----------------------------------------------------------------------------------------
+
+
+def part_C(rep, prog):
     t0 = time.time()
     problems3, n_ops = check_generated_calls(rep)
     report(rep, "C", "every generated Operation::call (%d): typed access hook before the backend, its denial returned, identity passed on unchanged" % n_ops,
            problems3, time.time() - t0)
-    # ---- (D) concrete scenario family on the real build (translation validation of the abstraction) ---------
+
+
+def part_D(rep, prog):
+    """concrete scenario family on the real build (translation validation of the abstraction)"""
     t0 = time.time()
     sys.path.insert(0, os.path.dirname(os.path.abspath(__file__)))
     import C07replay
@@ -435,10 +455,6 @@ def run(rep, tier):
         rep.obligation("(D) %d concrete scenarios {auth, hook, route} x {anonymous, valid, bad secret, unknown key, tampered} "
                        "signed by the reference SigV4 signer behave as the property demands on the real build" % n,
                        "replayer", "holds", time.time() - t0, queries=n)
-    for d in prof.CATALOGUE_DOC:
-        rep.assume("catalogue: " + d)
-    rep.out("behaviour of user-supplied hook implementations; whether the signature algorithms themselves are right (C05/C06/C10/C11)")
-    rep.bound("no bound on requests or configurations: every Option/Result/flag is symbolic")
 
 
 def check_executor(prog):
